@@ -192,8 +192,11 @@ fn aim_gc(seed: u64, policy: &str) -> Script {
         // total bytes of the position entries the GC pass will write
         let pos_total: usize = (0..idle).map(|q| 7 + live.entry_overhead(q)).sum();
         let own = 7 + live.entry_overhead(busy);
-        let choice = live.rng.below(6);
+        let choice = live.rng.below(8);
         let gap = match choice {
+            // the pass fits and leaves less than a second pass needs: a recovery that repeats the
+            // pass (crash before its unlinks) has to roll over
+            6 | 7 => own + 2 * pos_total + 7 + live.entry_overhead(busy) - live.rng.below(pos_total as u64) as usize,
             0 => own + live.rng.below(pos_total as u64 + 1) as usize,
             1 => own + pos_total / 2,
             2 => own + pos_total,
